@@ -132,6 +132,7 @@ theorem C16_isolation (s : State) (op : Op) (c' : Nat) (hc : c' < s.cells.length
     by_cases h : o < s.owners.length
     · cases hl : s.lookup o <;> simp [step, h, hl]
     · simp [step, h]
+  | tick => simp [step]
 
 theorem cells_length_mono (s : State) (op : Op) : s.cells.length ≤ (step s op).1.cells.length := by
   cases op with
@@ -173,6 +174,7 @@ theorem cells_length_mono (s : State) (op : Op) : s.cells.length ≤ (step s op)
     by_cases h : o < s.owners.length
     · cases hl : s.lookup o <;> simp [step, h, hl]
     · simp [step, h]
+  | tick => simp [step]
 
 /-- does some operation of the sequence write to context `c`? (views created on the way are followed) -/
 def writes (s : State) : List Op → Nat → Bool
@@ -265,6 +267,7 @@ theorem views_stable (s : State) (op : Op) (v : Nat) (hv : v < s.views.length) :
     by_cases h : o < s.owners.length
     · cases hl : s.lookup o <;> simp [step, h, hl, happ]
     · simp [step, h]
+  | tick => simp [step]
 
 theorem views_stable_run (s : State) (ops : List Op) (v : Nat) (hv : v < s.views.length) :
     (run s ops).1.views[v]? = s.views[v]? := by
@@ -448,6 +451,7 @@ theorem owners_step (s : State) (op : Op) :
     by_cases h : o < s.owners.length
     · cases hl : s.lookup o <;> simp [step, h, hl]
     · simp [step, h]
+  | tick => simp [step]
 
 theorem owners_length_mono (s : State) (op : Op) : s.owners.length ≤ (step s op).1.owners.length := by
   rcases owners_step s op with e | ⟨n, e, _⟩ <;> rw [e] <;> simp
